@@ -95,3 +95,15 @@ for _id, _extra, _lt in [
     META[_id] = {"level": "exploration", "rule": MUX_RULE + _extra, "real": MUX_REAL, "stub": MUX_STUB, "assumptions": MUX_ASSUME}
     LEVEL_TEXT[_id] = _lt
     NOT_APPLICABLE.pop(_id, None)
+
+for _id, _extra, _lt in [
+    ("C16", "C16 profile: every track list Start accepts (orders, 0-1 video, 0-3 audio, every codec, names/languages/default flags), index.m3u8 fetched with and without a query string after every write incl. after parameter changes; codec strings from an own RFC 6381 formatter.",
+     "Seeded exploration of track lists and write histories; every multivariant playlist of the history is compared with the track list, the current parameter sets and the bit rate recomputed from the fetched segments. Sampling."),
+    ("C18", "C18 profile: 300-3000 writes with a rotation almost every key frame, SegmentMaxSize 300..100000 with payload sizes straddling it; bounds checked after every write (listed segments, files in Directory, expired URIs), payload totals per published segment at the end.",
+     "Seeded exploration of long histories; retention bounds are evaluated at every rest point and the size bound on every decoded segment. Sampling."),
+    ("C19", "C19 profile: Low-Latency only, leading track with a constant sample duration (video 1..120 fps incl. 29.97, AAC at all standard rates, Opus frame sizes), PartMinDuration 50 ms..2 s on and off the 5 ms grid.",
+     "Seeded exploration of (sample duration, PartMinDuration, SegmentMinDuration, key-frame spacing); every playlist's parts are checked against the statement's numeric bounds. Sampling."),
+]:
+    META[_id] = {"level": "exploration", "rule": MUX_RULE + _extra, "real": MUX_REAL, "stub": MUX_STUB, "assumptions": MUX_ASSUME}
+    LEVEL_TEXT[_id] = _lt
+    NOT_APPLICABLE.pop(_id, None)
